@@ -53,6 +53,7 @@ import (
 	"iter"
 	"log/slog"
 	"net/http"
+	"slices"
 	"time"
 
 	"github.com/bartventer/httpcache/internal"
@@ -460,12 +461,26 @@ func (r *transport) backgroundRevalidate(
 			return
 		default:
 		}
+		// The stored response has been handed to the caller and must not be
+		// touched again: work on a copy of the entry read back from the cache,
+		// and on the current variant index so that other variants are kept.
+		own, err := r.cache.Get(stored.ID, req)
+		if err != nil {
+			errc <- err // entry is gone (e.g. invalidated); nothing to refresh
+			return
+		}
+		refs, _ := r.cache.GetRefs(urlKey)
+		refIndex := slices.IndexFunc(refs, func(ref *internal.ResponseRef) bool {
+			return ref.ResponseID == stored.ID
+		})
 		revalCtx := internal.RevalidationContext{
 			URLKey:    urlKey,
 			Start:     start,
 			End:       end,
 			CCReq:     ccReq,
-			Stored:    stored,
+			Stored:    own,
+			Refs:      refs,
+			RefIndex:  refIndex,
 			Freshness: freshness,
 		}
 		//nolint:bodyclose // The response is not used, so we don't need to close it.
